@@ -229,6 +229,8 @@ def gen_spec(r, tiny=False):
                 else:
                     occs.append({"t": t, "shape": gen_shape(r)})
                     t += 1
+            if len(occs) > 1 and r.random() < 0.5:
+                r.shuffle(occs)            # the stored occupancy list need not be chronological
             d["pred"] = {"kind": "set", "t1": t0 + 1, "occs": occs}
         spec["dynamic"].append(d)
     spec["env"] = [{"id": nid(), "type": r.choice(["BUILDING", "PILLAR", "MEDIAN_STRIP"]), "shape": gen_shape(r, ("poly", "rect", "circ"))}
